@@ -97,6 +97,22 @@ func runChecks(repo, prop, tier, outDir, knownPath, explain, goarch string, star
 		fmt.Println("usage: lhcheck -prop C01..C20 [-tier quick|thorough]")
 		return 2
 	}
+	if explain != "" {
+		b, err := os.ReadFile(explain)
+		if err != nil {
+			fmt.Printf("BROKEN: cannot read %s: %v\n", explain, err)
+			return 2
+		}
+		var rep struct {
+			Key string `json:"key"`
+		}
+		if err := json.Unmarshal(b, &rep); err != nil || rep.Key == "" {
+			fmt.Printf("BROKEN: %s is not a violation report\n", explain)
+			return 2
+		}
+		explainKey, explainPath = rep.Key, explain
+		tier = "quick"
+	}
 	sets, ok := propSets[prop]
 	if !ok && prop != "all" {
 		fmt.Printf("BROKEN: no rule set registered for %s\n", prop)
@@ -219,7 +235,37 @@ func hasProp(o *Obl, prop string) bool {
 	return false
 }
 
+// explainKey: when replaying a violation report, only the recorded obligation key is re-evaluated and printed
+var explainKey, explainPath string
+
 func report(a *Analyzer, res *Results, prop, tier, outDir, knownPath string, start time.Time) int {
+	if explainKey != "" {
+		found, violated := false, false
+		for _, o := range res.Obls {
+			if o.Key != explainKey {
+				continue
+			}
+			found = true
+			if o.Status != "discharged" {
+				violated = true
+				fmt.Printf("STILL VIOLATED: %s\n  rule %s: %s\n  at %s\n  missing: %s\n  path: %s\n", o.Key, o.Rule, o.Text, o.Site, o.Missing, o.Path)
+				for _, h := range o.Held {
+					fmt.Printf("    held: %s\n", h)
+				}
+			}
+		}
+		switch {
+		case !found:
+			fmt.Printf("NOT FOUND: no obligation with key %s is generated on the current tree (the construct is gone)\n", explainKey)
+			return 0
+		case violated:
+			fmt.Printf("VIOLATION property=%s replay=%s\n", prop, explainPath)
+			return 1
+		default:
+			fmt.Printf("DISCHARGED: %s holds on the current tree\n", explainKey)
+			return 0
+		}
+	}
 	known := loadKnown(knownPath)
 	var obls []*Obl
 	for _, o := range res.Obls {
